@@ -8,10 +8,12 @@
 Not decided: equality of all five components for every admissible tuple (value level).
 """
 import re
-from engine import op_place
+from engine import op_place, const_str
 from terms import TermBuilder, render, strip_proj
 from common import switch_info, arms_of, ok_assign_blocks, reach_from, fmt_key
 from audit import Auditor
+
+RET = {"k": "copy", "l": 0, "p": []}
 
 
 def display_table(b):
@@ -33,17 +35,84 @@ def display_table(b):
         lits = []
         for c in b.calls():
             if c.bb in region and c.decl.startswith("std::fmt::Arguments::<'a>::from_str"):
-                s = c.args[0].get("k", {}).get("s")
+                s = const_str(c.args[0])
                 if s and s.startswith('"'):
                     lits.append(s.strip('"'))
+        if not lits:
+            # `f.write_str(match self { V => "lit", .. })`: the literal is chosen in the arm and written after the arms join
+            sinks = [render(tb.term(c.args[1])) for c in b.calls() if re.search(r"fmt::Formatter::<'a>::(write_str|pad)$", c.decl) and len(c.args) > 1]
+            for bb in sorted(region):
+                if not (b.dominates(tgt, bb) or bb == tgt):
+                    continue
+                for st in b.stmts(bb):
+                    if st["k"] == "assign" and st["rv"]["r"] == "use":
+                        sv = const_str(st["rv"]["o"])
+                        if sv and sv.startswith('"') and any(sv in x for x in sinks):
+                            lits.append(sv.strip('"'))
+        out[name] = lits
+    return out
+
+
+def name_table(b):
+    """variant -> literal for a body that maps the enum value to a string in a `match` (no formatter involved)."""
+    sw = None
+    for sb in sorted(b.reachable()):
+        info = switch_info(b, sb)
+        if info and info["kind"] == "discr" and (info.get("enum") or "").endswith("CompressionType"):
+            sw = info
+            break
+    if sw is None:
+        return None
+    out = {}
+    arms = arms_of(b, sw)
+    for name, tgt in arms.items():
+        lits = []
+        for bb in sorted(b.reachable()):
+            if b.dominates(tgt, bb) or bb == tgt:
+                for st in b.stmts(bb):
+                    if st["k"] == "assign" and st["rv"]["r"] == "use":
+                        sv = const_str(st["rv"]["o"])
+                        if sv and sv.startswith('"'):
+                            lits.append(sv.strip('"'))
         out[name] = lits
     return out
 
 
 def fromstr_table(b):
-    """literal -> constructed variant for a `match s { "lit" => Ok(V) }` FromStr impl."""
+    """literal -> constructed variant for a `match s { "lit" => Ok(V) }` FromStr impl, or for the table-driven form
+    `ALL.into_iter().find(|v| v.name() == s)` (first element of the constant array whose name equals the text)."""
     tb = TermBuilder(b)
     out = {}
+    f = b.facts
+    for c in b.calls():
+        if re.search(r"Iterator::find$", c.decl.split("::<")[0]) and len(c.args) == 2:
+            arr = None
+            for lf in b.origins(c.args[0]):
+                if lf["kind"] == "const" and re.fullmatch(r"\[(\w+::)*compressor::CompressionType; \d+\]", lf["k"].get("ty", "")) and lf["k"].get("alloc"):
+                    arr = bytes.fromhex(lf["k"]["alloc"])
+            cbs = [f.bodies.get(lf["stmt"]["rv"]["closure"]) for lf in b.origins(c.args[1], passthrough={}) if lf["kind"] == "agg" and lf["stmt"]["rv"].get("ak") == "closure"]
+            adt = f.adt("compressor::CompressionType") if hasattr(f, "adt") else None
+            if arr is None or len(cbs) != 1 or cbs[0] is None or adt is None:
+                continue
+            cb = cbs[0]
+            nt = name_table(cb)
+            tcb = TermBuilder(cb, closure_env=True)
+            eqs = [x for x in cb.calls() if x.decl == "std::cmp::PartialEq::eq" and len(x.args) == 2]
+            if not nt or len(eqs) != 1:
+                continue
+            sides = [render(tcb.term(a)) for a in eqs[0].args]
+            want = b.local_name(1) or "_1"
+            if not any(s_ == want for s_ in sides) or not any(s_.startswith("phi(") for s_ in sides):
+                continue
+            # the closure returns the comparison itself
+            if render(TermBuilder(cb).term(RET)) != render(TermBuilder(cb).term({"c": eqs[0].dest})):
+                continue
+            by_discr = {int(v["discr"]): v["name"] for v in adt["variants"]}
+            for d_ in arr:
+                v_ = by_discr.get(d_)
+                for lit in (nt.get(v_) or []):
+                    out.setdefault(lit, v_)
+            return out
     for sb in sorted(b.reachable()):
         info = switch_info(b, sb)
         if not info or info["kind"] != "bool" or info["call"].decl != "std::cmp::PartialEq::eq":
@@ -51,7 +120,7 @@ def fromstr_table(b):
         c = info["call"]
         lit = None
         for a in c.args:
-            s = a.get("k", {}).get("s") if "k" in a else None
+            s = const_str(a) if "k" in a else None
             if s and s.startswith('"'):
                 lit = s.strip('"')
         if lit is None:
@@ -74,7 +143,7 @@ def splits(b):
     for c in b.calls():
         m = re.search(r"<impl str>::(split_once|rsplit_once|find|rfind|split|rsplit|splitn|rsplitn|split_terminator)$", c.decl)
         if m:
-            ch = c.args[-1].get("k", {}).get("s") if "k" in c.args[-1] else render(tb.term(c.args[-1]))
+            ch = const_str(c.args[-1]) if "k" in c.args[-1] else render(tb.term(c.args[-1]))
             out.append({"method": m.group(1), "char": (ch or "").strip("'"), "recv": render(tb.term(c.args[0])), "call": c})
     return out
 
@@ -123,7 +192,8 @@ def run(f, fixture, rep, cfg, tier):
 
     # ---- R2 / R3 -------------------------------------------------------------------------------
     evp = f.one("version::Evr::<'a>::parse_values")
-    nvp = f.one("version::Nevra::<'a>::parse_values")
+    # a Nevra is a name followed by an Evr whose release still carries the arch: the parser may delegate to Evr's
+    nvp = f.splice(f.one("version::Nevra::<'a>::parse_values"), ["version::Evr::<'a>::parse_values"])
     es, ns = splits(evp), splits(nvp)
     rep.floor("R2", "split calls in Evr::parse_values", len(es), 2)
     rep.floor("R2", "split calls in Nevra::parse_values", len(ns), 4)
@@ -174,7 +244,7 @@ def run(f, fixture, rep, cfg, tier):
         ok = False
         for l in range(len(nf.locals)):
             ds = [x for x in nf.defs(l) if x[2] == "assign" and not x[4]]
-            zero = [x for x in ds if x[3]["rv"]["r"] == "use" and (x[3]["rv"]["o"].get("k", {}).get("s") == '"0"')]
+            zero = [x for x in ds if x[3]["rv"]["r"] == "use" and (const_str(x[3]["rv"]["o"]) == '"0"')]
             if zero:
                 ok = all(nf.dominates(sw["true"], x[0]) for x in zero) and all(not nf.dominates(sw["true"], x[0]) for x in ds if x not in zero)
         rep.check(ok, "R4", "evr|zero-on-empty", "\"0\" is substituted exactly when the epoch is empty", "\"0\" is substituted on the wrong branch", nf.span)
@@ -218,16 +288,34 @@ def run(f, fixture, rep, cfg, tier):
     # trimming or rewriting of a component (which would make parse reject or alter text that format produced)
     SPLIT_OK = r"(split_once|rsplit_once|split|rsplit|splitn|rsplitn|split_terminator|find|rfind|split_at|unwrap_or|unwrap_or_else|unwrap_or_default|map_or|map_or_else|Index::index|<impl str>::get|len|is_empty|Iterator::next|DoubleEndedIterator::next_back|Try::branch|FromResidual::from_residual|Into::into|From::from)(?:::<.*)?$"
     for rx in (r"version::Evr::<'a>::parse_values$", r"version::Nevra::<'a>::parse_values$"):
-        for b in [x for x in f.find(rx=rx) if x.kind != "closure"]:
+        for b in [f.splice(x, ["version::Evr::<'a>::parse_values"]) if "Nevra" in rx else x for x in f.find(rx=rx) if x.kind != "closure"]:
             extra = sorted({c.decl for x in [b] + f.closures_of(b) for c in x.calls() if not re.search(SPLIT_OK, c.decl)})
             rep.check(not extra, "R6", "splitter-calls|%s" % fmt_key(b.path), "%s only splits at separators" % fmt_key(b.path),
                       "%s also applies %s: a component is accepted conditionally or transformed, so some text that Display produces no longer parses back to the same value" % (b.path, extra[:4]), b.span)
     # the splitters return slices of their input; the only literal allowed is the empty string for a missing part
+    def only_slices(t_):
+        """every leaf is the input text, "" or a piece cut off by a splitter call (whatever test selects among them)"""
+        if not isinstance(t_, tuple) or not t_:
+            return False
+        if t_[0] == "const":
+            return t_[1] == '""' or re.fullmatch(r"'.'", str(t_[1])) is not None
+        if t_[0] == "arg":
+            return True
+        if t_[0] == "proj":
+            return only_slices(t_[1])
+        if t_[0] == "call":
+            return re.search(SPLIT_OK, t_[1]) is not None and all(only_slices(a_) for a_ in t_[2])
+        if t_[0] == "phi":
+            return all(only_slices(a_) for a_ in t_[1])
+        if t_[0] == "agg":
+            return t_[1] == "tuple" and all(only_slices(a_) for a_ in t_[2])
+        return False
     for rx in (r"version::Evr::<'a>::parse_values$", r"version::Nevra::<'a>::parse_values$"):
-        for b in [x for x in f.find(rx=rx) if x.kind != "closure"]:
-            t = render(TermBuilder(b).term(RET))
+        for b in [f.splice(x, ["version::Evr::<'a>::parse_values"]) if "Nevra" in rx else x for x in f.find(rx=rx) if x.kind != "closure"]:
+            tt_ = TermBuilder(b).term(RET)
+            t = render(tt_)
             lits = set(re.findall(r'"((?:[^"\\]|\\.)*)"', t))
-            rep.check(lits <= {""} and "phi(" not in t, "R6", "slices|%s" % fmt_key(b.path), "%s returns pieces of its input (a missing part is \"\")" % fmt_key(b.path),
+            rep.check(lits <= {""} and ("phi(" not in t or only_slices(tt_)), "R6", "slices|%s" % fmt_key(b.path), "%s returns pieces of its input (a missing part is \"\")" % fmt_key(b.path),
                       "%s can return the literal(s) %s or a value chosen by a test: a component does not come from the text" % (b.path, sorted(lits - {""})), b.span)
 
     # ---- R7 equality treats both operands alike --------------------------------------------------------------------
